@@ -235,7 +235,7 @@ class C09(World):
     def swarm(self, rng):
         return {
             "weights": swarm_weights(rng, OP_KINDS, keep_p=0.65, always=("update_new", "get")),
-            "n_ops": rng.choice([2, 3, 3, 4, 5, 6, 8, 10, 14]),
+            "n_ops": rng.choice([2, 3, 3, 4, 5, 6, 8, 10, 14] if self.TIER != "thorough" else [3, 5, 8, 10, 14, 20, 28]),
             "via_scene": rng.random() < 0.5,
             "n_frames": rng.choice([3, 4, 5, 6, 9]),
             "repair_rigid": rng.choice([1e-5, 1e-5, None]),
